@@ -35,6 +35,7 @@ CONSTANTS NSlots,     \* number of named objects (2 or 3)
           Ops,        \* set of operation names offered
           Rich,       \* BOOLEAN: richer gate alphabet / more argument choices
           Export,     \* "none" | "leaf" (print the history when MaxDepth is reached)
+          Prefix,     \* sequence of sets of operation names: the j-th operation after `new` must be in Prefix[j] (scenarios)
           Thin        \* export only the histories whose deterministic hash is 0 modulo Thin (1 = all)
 
 VARIABLES heap, hist
@@ -65,7 +66,14 @@ GateAlpha == IF Rich THEN {H0, RZ1a, RZ1b, CN10, CRZ03a, CRZ03b, MEAS1, RY3v, CC
 InitLists == IF Rich THEN {<<>>, <<H0, CN10>>, <<RZ1a, RZ1b, H0, H0>>, <<CCN3, RY3v>>, <<RX0s, CN10, CX10>>, <<MEAS1, X1>>, <<CRZ03a, CRZ03b>>}
              ELSE {<<>>, <<H0, CN10>>, <<CCN3, RY3v>>, <<RX0s, RZ1a>>}
 FixedChoices == {0, 4, 5}
-Formats == {"cirq", "sympy", "ionq", "projectq", "qdk"}
+\* translate: plain formats and the documented cirq output options (noise model with depolarising / Pauli noise on every
+\* gate name of the alphabet, save_measurements); simulate: plain, with a noise model, with initial_statevector,
+\* desired_meas_result, save_mid_circuit_meas
+Formats == {"cirq", "sympy", "ionq", "projectq", "qdk", "cirq:depol", "cirq:pauli", "cirq:savemeas"}
+SimForms == {"", "depol", "pauli", "initsv", "desired", "savemid"}
+IndexOps == {"reindex", "trim"}
+PrefixNone   == <<>>
+PrefixIndex2 == <<IndexOps, IndexOps>>           \* two successive in-place index rewritings, then any offered operation
 
 \* uniform action record
 Act(op, o, o2, dst, g, gs, n, form, rq, fmt, new, bad) ==
@@ -89,9 +97,11 @@ Result(act, a, b) ==
     [] act.op = "repeat"  -> IF act.n >= 1 /\ Fits(a.gates, a.fixedN) THEN Mk(RepeatSeq(a.gates, act.n), a.fixedN) ELSE Dead
     [] act.op = "copy"    -> IF Fits(a.gates, a.fixedN) THEN [Mk(a.gates, a.fixedN) EXCEPT !.qidx = @ \cup (IF a.fixedN > 0 THEN {} ELSE {})] ELSE Dead
     [] act.op = "inverse" -> IF Invertible(a.gates) /\ ~Symbolic(a.gates) /\ Fits(a.gates, a.fixedN) THEN Mk(Inv6(a.gates), a.fixedN) ELSE Dead
-    [] act.op = "trim"    -> [a EXCEPT !.gates = Compress(a.gates, Used(a.gates)), !.qidx = 0..(Cardinality(Used(a.gates)) - 1)]
+    [] act.op = "trim"    -> [a EXCEPT !.gates = Compress(a.gates, Used(a.gates)), !.qidx = 0..(Cardinality(Used(a.gates)) - 1),
+                                       !.fixedN = IF a.fixedN > 0 THEN Cardinality(Used(a.gates)) ELSE 0]
     [] act.op = "reindex" -> IF Len(act.new) = Cardinality(a.qidx)
-                             THEN [a EXCEPT !.gates = ReindexGates(a.gates, a.qidx, act.new), !.qidx = {act.new[x] : x \in 1..Len(act.new)}]
+                             THEN [a EXCEPT !.gates = ReindexGates(a.gates, a.qidx, act.new), !.qidx = {act.new[x] : x \in 1..Len(act.new)},
+                                            !.fixedN = IF a.fixedN > 0 THEN SetMax({act.new[x] : x \in 1..Len(act.new)}) + 1 ELSE 0]
                              ELSE Dead
     [] act.op = "stack"   -> LET gs == StackModel(<<a.gates, b.gates>>)
                                  n  == IF a.fixedN > 0 \/ b.fixedN > 0 THEN MaxIdx(gs) + 1 ELSE 0
@@ -122,7 +132,8 @@ Effect(hp, act) ==
 \* ---- enabled argument choices ---------------------------------------------------------------------------
 Live(hp) == {s \in Slots : hp[s].live}
 Perm(S) == LET n == Cardinality(S) IN
-           {<<"rev", [x \in 1..n |-> n - x]>>, <<"shift", [x \in 1..n |-> x + 1]>>} \cup
+           \* rev and compact LOWER the maximal index after shift / spread raised it
+           {<<"rev", [x \in 1..n |-> n - x]>>, <<"shift", [x \in 1..n |-> x + 1]>>, <<"compact", [x \in 1..n |-> x - 1]>>} \cup
            (IF Rich THEN {<<"spread", [x \in 1..n |-> 2 * (n - x)]>>} ELSE {})
 Acts(hp) ==
   UNION { (IF "add" \in Ops THEN { Act("add", o, 0, 0, g, <<>>, 0, "", FALSE, "", <<>>, "") : g \in GateAlpha } ELSE {})
@@ -148,7 +159,8 @@ Acts(hp) ==
                        \cup { Act(op, o, 0, 0, NoGate, <<>>, 0, "method", rq, "", <<>>, "") : rq \in (IF op = "merge" THEN {FALSE} ELSE BOOLEAN) }
                   ELSE {} : op \in {"small", "redundant", "merge", "simplify"} }
      \cup (IF "translate" \in Ops THEN { Act("translate", o, 0, 0, NoGate, <<>>, 0, "", FALSE, f, <<>>, "") : f \in Formats } ELSE {})
-     \cup UNION { IF op \in Ops THEN { A0(op, o) } ELSE {} : op \in {"simulate", "depth", "iterate", "str"} }
+     \cup (IF "simulate" \in Ops THEN { Act("simulate", o, 0, 0, NoGate, <<>>, 0, f, FALSE, "", <<>>, "") : f \in SimForms } ELSE {})
+     \cup UNION { IF op \in Ops THEN { A0(op, o) } ELSE {} : op \in {"depth", "iterate", "str"} }
      \cup (IF "eq" \in Ops THEN { Act("eq", o, o2, 0, NoGate, <<>>, 0, "", FALSE, "", <<>>, "") : o2 \in Live(hp) } ELSE {})
         : o \in Live(hp) }
   \cup (IF "new" \in Ops THEN { Act("new", 0, 0, d, NoGate, gs, n, "", FALSE, "", <<>>, "") : d \in Slots, gs \in InitLists, n \in {0, 2, 4} } ELSE {})
@@ -162,7 +174,8 @@ Init == \E gs \in InitLists, n \in FixedChoices :
 \* which evaluates invariants on every candidate successor, then exports each sampled history exactly once)
 Ended == Len(hist) >= 1 /\ hist[Len(hist)].op = "end"
 Next == \/ /\ Len(hist) <= MaxDepth
-           /\ \E act \in Acts(heap) : /\ heap' = Effect(heap, act)
+           /\ \E act \in Acts(heap) : /\ (Len(hist) <= Len(Prefix) => act.op \in Prefix[Len(hist)])
+                                      /\ heap' = Effect(heap, act)
                                       /\ hist' = Append(hist, act)
         \/ /\ Len(hist) = MaxDepth + 1
            /\ heap' = heap
